@@ -343,7 +343,13 @@ func length_(computer *ComputedStyle, value pr.DimOrS, fontSize pr.Float, pixels
 		case pr.Em:
 			result = value.Value * fontSize
 		case pr.Rem:
-			result = value.Value * computer.rootStyle.fontSize.Value
+			if computer.isRootElement() {
+				// On the root element, rem refers to its own font size
+				// (to the initial value when computing font-size itself).
+				result = value.Value * fontSize
+			} else {
+				result = value.Value * computer.rootStyle.fontSize.Value
+			}
 		}
 
 	default:
